@@ -338,13 +338,16 @@ func (a *Application) executeTranslatedNonStreamingRequest(
 
 	// Parse OpenAI response
 	var openaiResp map[string]interface{}
-	if jerr := json.Unmarshal(recorder.body.Bytes(), &openaiResp); jerr != nil {
-		return fmt.Errorf("failed to parse OpenAI response: %w", jerr)
-	}
+	jerr := json.Unmarshal(recorder.body.Bytes(), &openaiResp)
 
-	// handle backend errors
+	// handle backend errors first: an error body need not be JSON (a fronting proxy's HTML
+	// page, an empty body) and the backend's status must survive either way
 	if recorder.status >= 400 {
 		return a.handleNonStreamingBackendError(w, recorder, openaiResp, pr, trans)
+	}
+
+	if jerr != nil {
+		return fmt.Errorf("failed to parse OpenAI response: %w", jerr)
 	}
 
 	// transform and write successful response
